@@ -678,3 +678,39 @@ func freeVarBinding(fv *ssa.FreeVar) ssa.Value {
 	}
 	return nil
 }
+
+// forwardFrom explores the CFG forward from the successors of block from (as if leaving it),
+// with jump threading (a block entered through an edge on which the phi it branches on is a constant
+// is left through the decided successor only). visit(x) returns true to continue past x.
+func forwardFrom(from *ssa.BasicBlock, visit func(x *ssa.BasicBlock) bool) {
+	type st struct {
+		b      *ssa.BasicBlock
+		forced int
+	}
+	seen := map[st]bool{}
+	var stack []st
+	push := func(pred *ssa.BasicBlock, forced int) {
+		for i, s := range pred.Succs {
+			if forced >= 0 && len(pred.Succs) == 2 && i != forced {
+				continue
+			}
+			f := -1
+			if k, ok := decidedSucc(pred, s); ok {
+				f = k
+			}
+			stack = append(stack, st{s, f})
+		}
+	}
+	push(from, -1)
+	for len(stack) > 0 {
+		x := stack[len(stack)-1]
+		stack = stack[:len(stack)-1]
+		if seen[x] {
+			continue
+		}
+		seen[x] = true
+		if visit(x.b) {
+			push(x.b, x.forced)
+		}
+	}
+}
